@@ -155,6 +155,19 @@ func (e *TaskExecutor) validatedTxSenderMethodAndArgs(
 	}
 
 	span.AddEvent("validating and extracting invocation context")
+	// the configuration in force may disable the function (or swaps / multi-swaps):
+	// refuse it here exactly as Invoke does for direct calls and batched submissions
+	if e.Chaincode.isMethodDisabled(method) {
+		err := fmt.Errorf(
+			"failed to parse chaincode method '%s' for task %s: method '%s' not found",
+			task.GetMethod(),
+			task.GetId(),
+			task.GetMethod(),
+		)
+		span.SetStatus(codes.Error, err.Error())
+		return nil, "", nil, err
+	}
+
 	senderAddress, invocationArgs, nonce, err := e.Chaincode.validateAndExtractInvocationContext(
 		stub,
 		task.GetMethod(),
